@@ -41,8 +41,8 @@ def label (sh : Sh) (pc : Pc) (e : Env) : Label :=
   match pc, e with
   | .idle, .dropW pan => { kind := "call", op := "rwlock.drop_w", a1 := .num (b2i pan) }
   | .idle, e => { kind := "call", op := opName e }
-  | .rlk _ p, e | .rul _ _ p, e => relabel false (Mutex.label sh.rl p (menv e))
-  | .glk _ p, e | .gul _ p, e => relabel true (Mutex.label sh.g p (menv e))
+  | .rlk _ p, e | .rul _ _ p, e => relabel false (Mutex.label sh.rl p (menvR e))
+  | .glk _ p, e | .gul _ p, e => relabel true (Mutex.label sh.g p (menvG e))
   | .rlp _, _ => { obj := "sync.poison.failed", inst := rpflag, op := "load", res := .num 0, ord := "Relaxed" }
   | .gld _, _ => { obj := "sync.rwlock.cnt", inst := rw, op := "load", res := .num (1 - sh.g.cnt), ord := "SeqCst" }
   | .glp _, _ | .psn _, _ | .isp, _ =>
@@ -67,15 +67,16 @@ def pcName : Pc → String
 
 def envsFor : Pc → List Env
   | .idle => [.read, .tryRead, .write, .tryWrite, .dropR, .dropW false, .dropW true, .isPoisoned]
-  | .rlk _ (.w5park _) | .glk _ (.w5park _) => [.go, .abort]
+  | .rlk _ (.w5park _) => [.go, .abort, .abortIgnore]
+  | .glk _ (.w5park _) => [.go, .abort]
   | _ => [.go]
 
 /-- transition name for coverage: program point plus the branch taken -/
 def transName (sh : Sh) (pc : Pc) (e : Env) : String :=
   let br := match pc, e with
     | .idle, e => "/" ++ opName e
-    | .rlk _ p, e | .rul _ _ p, e => "/" ++ Mutex.transName sh.rl p (menv e)
-    | .glk _ p, e | .gul _ p, e => "/" ++ Mutex.transName sh.g p (menv e)
+    | .rlk _ p, e | .rul _ _ p, e => "/" ++ Mutex.transName sh.rl p (menvR e)
+    | .glk _ p, e | .gul _ p, e => "/" ++ Mutex.transName sh.g p (menvG e)
     | .rlp .dropR, _ => if sh.r = 1 then "/last" else "/more"
     | .rlp _, _ => if sh.r = 0 then "/first" else "/more"
     | .gld _, _ => if sh.g.cnt = 1 then "/free" else "/busy"
